@@ -894,5 +894,229 @@ Section RosScratch.
           + apply IH. exact Hs. }
       apply G. unfold tinv. cbn [l_t l_fresh]. split; [rewrite H0; split; lra | discriminate].
     Qed.
+
+    (* ---------- C07: no attempt exceeds the remaining interval; retries within a step never grow ---------- *)
+    Definition plain (e : event) : Prop :=
+      match e with EvAttempt _ _ _ _ _ _ => False | EvStep _ _ => False | _ => True end.
+
+    Lemma stage_plain H s lm lf k : Forall plain (snd (fst (stage1 H s lm lf k))).
+    Proof.
+      rewrite stage_step_split. unfold tail_part, first_part. cbv zeta.
+      destruct (k =? 0); [|destruct (nth k (p_newf p) false)]; cbn [fst snd app]; repeat constructor.
+    Qed.
+
+    Lemma stages_plain H s : Forall plain (snd (fst (stages H s))).
+    Proof.
+      unfold stages_loop.
+      assert (G : forall l (acc : rstate * list event * nat), Forall plain (snd (fst acc)) ->
+        Forall plain (snd (fst (fold_left (fun (acc : rstate * list event * nat) stage =>
+                   let '(s, ev, nf) := acc in
+                   let '(s', ev', nf') := stage1 H s (sJac s) (sLU s) stage in (s', ev ++ ev', (nf + nf')%nat)) l acc)))).
+      { induction l as [|k l IH]; intros [[s0 ev0] nf0] Hq; cbn [fold_left]; [exact Hq|].
+        pose proof (stage_plain H s0 (sJac s0) (sLU s0) k) as Hs.
+        destruct (stage1 H s0 (sJac s0) (sLU s0) k) as [[s1 ev1] nf1]. cbn [fst snd] in *.
+        apply IH. cbn [fst snd]. apply Forall_app. split; assumption. }
+      apply G. constructor.
+    Qed.
+
+    (* walking a trace with the size of the latest step start / attempt as the bound for the next attempt *)
+    Fixpoint sizes_ok (ts : T) (b : Q) (tr : list event) : Prop :=
+      match tr with
+      | [] => True
+      | EvStep t H :: r => (0 <= phi t /\ 0 <= phi H /\ phi H <= phi ts - phi t) /\ sizes_ok ts (phi H) r
+      | EvAttempt H _ _ _ _ _ :: r => (0 <= phi H /\ phi H <= b) /\ sizes_ok ts (phi H) r
+      | _ :: r => sizes_ok ts b r
+      end.
+    Fixpoint lastb (b : Q) (tr : list event) : Q :=
+      match tr with
+      | [] => b
+      | EvStep _ H :: r => lastb (phi H) r
+      | EvAttempt H _ _ _ _ _ :: r => lastb (phi H) r
+      | _ :: r => lastb b r
+      end.
+
+    Lemma sizes_ok_app ts b a c : sizes_ok ts b (a ++ c) <-> sizes_ok ts b a /\ sizes_ok ts (lastb b a) c.
+    Proof.
+      revert b; induction a as [|e a IH]; intros b; cbn [app sizes_ok lastb]; [tauto|].
+      destruct e; rewrite ?IH; tauto.
+    Qed.
+    Lemma lastb_app b a c : lastb b (a ++ c) = lastb (lastb b a) c.
+    Proof. revert b; induction a as [|e a IH]; intros b; cbn [app lastb]; [reflexivity|]. destruct e; apply IH. Qed.
+    Lemma plain_sizes ts b a : Forall plain a -> sizes_ok ts b a /\ lastb b a = b.
+    Proof.
+      induction 1 as [|e a He Ha IH]; cbn [sizes_ok lastb]; [split; [exact I | reflexivity]|].
+      destruct e; cbn [plain] in He; try contradiction; exact IH.
+    Qed.
+
+    Lemma attempt_events_ok ts b0 tr ev0 H alpha (jac1 : M) evs e ok (y yn ye : V) tail :
+      sizes_ok ts b0 (tr ++ ev0) -> 0 <= phi H -> phi H <= lastb b0 (tr ++ ev0) -> Forall plain evs -> Forall plain tail ->
+      sizes_ok ts b0 (tr ++ (ev0 ++ [EvFactor H alpha jac1] ++ evs) ++ [EvAttempt H e ok y yn ye] ++ tail) /\
+      lastb b0 (tr ++ (ev0 ++ [EvFactor H alpha jac1] ++ evs) ++ [EvAttempt H e ok y yn ye] ++ tail) = phi H.
+    Proof.
+      intros H1 H2 H3 Hp Ht.
+      replace (tr ++ (ev0 ++ [EvFactor H alpha jac1] ++ evs) ++ [EvAttempt H e ok y yn ye] ++ tail)
+        with ((tr ++ ev0) ++ (EvFactor H alpha jac1 :: evs) ++ (EvAttempt H e ok y yn ye :: tail))
+        by (rewrite <- !app_assoc; reflexivity).
+      assert (Hp' : Forall plain (EvFactor H alpha jac1 :: evs)) by (constructor; [exact I | exact Hp]).
+      destruct (plain_sizes ts (lastb b0 (tr ++ ev0)) _ Hp') as [P1 P2].
+      destruct (plain_sizes ts (phi H) _ Ht) as [T1 T2].
+      split.
+      - apply sizes_ok_app. split; [exact H1|]. apply sizes_ok_app. split; [exact P1|]. rewrite P2.
+        cbn [sizes_ok]. split; [split; assumption | exact T1].
+      - rewrite (lastb_app b0 (tr ++ ev0)). rewrite (lastb_app _ (EvFactor H alpha jac1 :: evs)). rewrite P2. cbn [lastb]. exact T2.
+    Qed.
+
+    Lemma top_time_bounds ts l : tinv ts l ->
+      match top_part ts l with
+      | inl _ => True
+      | inr (l1, ev0) => tinv ts l1 /\ l_fresh l1 = false /\
+                         ((l_fresh l = true /\ ev0 = [EvStep (l_t l1) (l_H l1); EvForcing (sY (l_s l)); EvNegJac (sY (l_s l))]) \/
+                          (l_fresh l = false /\ ev0 = [] /\ l1 = l))
+      end.
+    Proof.
+      intros [Ht HH]. unfold top_part.
+      destruct (l_fresh l) eqn:Hfr;
+        [|split; [split; [exact Ht | intros _; apply HH; reflexivity] | split; [exact Hfr | right; repeat split; reflexivity]]].
+      destruct (negb (leb (nadd N (nsub N (l_t l) ts) (p_round_off p)) (n0 N))); [exact I|].
+      destruct (p_max_steps p <? number_of_steps (l_stats l)); [exact I|].
+      destruct (absorbed (l_t l) (l_H l) || leb (l_H l) (p_round_off p)) eqn:E3; [exact I|].
+      apply Bool.orb_false_iff in E3. destruct E3 as [_ E3]. apply leb_false in E3.
+      cbv zeta. split; [|split; [reflexivity | left; split; reflexivity]].
+      unfold tinv. cbn [l_t l_H l_fresh]. split; [exact Ht|]. intros _.
+      pose proof (Habs (nsub N ts (l_t l))) as A1. pose proof (Hsub ts (l_t l)) as A2.
+      assert (A3 : Qabs (phi (nsub N ts (l_t l))) == phi ts - phi (l_t l)).
+      { rewrite A2. apply Qabs_pos. destruct Ht as [_ Ht2]. lra. }
+      destruct (tmin_cases (l_H l) (nabs (nsub N ts (l_t l)))) as [[-> Hc] | [-> Hc]]; rewrite ?A1, ?A3 in *; destruct Ht as [Ht1 Ht2]; split; lra.
+    Qed.
+
+    Lemma rejected_not_larger (H err : T) (more : bool) :
+      0 <= phi H -> ltb err (n1 N) = false ->
+      let fac := tmin N ltb (p_factor_max p) (tmax N ltb (p_factor_min p) (ndiv N (p_safety p) (pow_inv err (p_elo p)))) in
+      let Hn := if more then nmul N H (p_rej_dec p) else nmul N H fac in
+      0 <= phi Hn /\ phi Hn <= phi H.
+    Proof.
+      intros HH Eerr. cbv zeta.
+      set (raw := ndiv N (p_safety p) (pow_inv err (p_elo p))).
+      assert (Hfac : 0 <= phi (tmin N ltb (p_factor_max p) (tmax N ltb (p_factor_min p) raw)) /\
+                     phi (tmin N ltb (p_factor_max p) (tmax N ltb (p_factor_min p) raw)) <= 1).
+      { pose proof (Hraw err Eerr) as R. fold raw in R. destruct Hfmin as [F1 F2].
+        destruct (tmax_cases (p_factor_min p) raw) as [[Em Hc] | [Em Hc]]; rewrite Em;
+          destruct (tmin_cases (p_factor_max p) (p_factor_min p)) as [[E1 Hd] | [E1 Hd]];
+          destruct (tmin_cases (p_factor_max p) raw) as [[E2 He] | [E2 He]]; rewrite ?E1, ?E2; split; lra. }
+      destruct Hfac as [Fa Fb]. destruct Hrd as [R1 R2].
+      destruct more.
+      - pose proof (Hmul H (p_rej_dec p)) as A. rewrite A. split; nra.
+      - match goal with |- context [nmul N H ?f] => pose proof (Hmul H f) as A; rewrite A;
+                                                    set (x := phi f) in *; set (h := phi H) in * end.
+        split; nra.
+    Qed.
+
+    Definition szinv (ts : T) (b0 : Q) (l : loop_state) (tr : list event) : Prop :=
+      tinv ts l /\ sizes_ok ts b0 tr /\ (l_fresh l = false -> phi (l_H l) <= lastb b0 tr).
+
+    Lemma iter_sizes ts hm b0 l tr : szinv ts b0 l tr ->
+      match iter ts hm l with
+      | inr (l', ev) => szinv ts b0 l' (tr ++ ev)
+      | inl (_, _, _, _, ev) => sizes_ok ts b0 (tr ++ ev)
+      end.
+    Proof.
+      intros (HT & HS & HB).
+      pose proof (iter_time_bounds ts hm l HT) as HTB.
+      rewrite ros_iter_split in *.
+      pose proof (top_time_bounds ts l HT) as Htop.
+      destruct (top_part ts l) as [st | [l1 ev0]]; [rewrite app_nil_r; exact HS|].
+      destruct Htop as (HT1 & Hfr1 & Hev).
+      assert (HS1 : sizes_ok ts b0 (tr ++ ev0) /\ phi (l_H l1) <= lastb b0 (tr ++ ev0)).
+      { destruct HT1 as [[Ta Tb] HH1]. specialize (HH1 Hfr1). destruct HH1 as [Ha Hb].
+        destruct Hev as [[Hf ->] | [Hf [-> ->]]].
+        - split.
+          + apply sizes_ok_app. split; [exact HS|]. cbn [sizes_ok]. repeat split; try assumption.
+          + rewrite lastb_app. cbn [lastb]. apply Qle_refl.
+        - rewrite app_nil_r. split; [exact HS | apply HB; exact Hf]. }
+      destruct HS1 as [HS1 HB1].
+      assert (HH1 : 0 <= phi (l_H l1)).
+      { destruct HT1 as [_ HH1]. specialize (HH1 Hfr1). tauto. }
+      unfold attempt_part in *. cbv zeta in *.
+      pose proof (stages_plain (l_H l1)) as SP.
+      match goal with |- context [stages ?h ?s1] => specialize (SP s1); destruct (stages h s1) as [[s2 evs] nf] end.
+      cbn [fst snd] in SP.
+      match goal with |- context [isnan ?e] => set (err := e) in * end.
+      match goal with |- context [EvFactor _ ?a ?j] => set (alpha := a) in *; set (jac1 := j) in * end.
+      assert (NoTail : forall ok y yn ye,
+                 sizes_ok ts b0 (tr ++ (ev0 ++ [EvFactor (l_H l1) alpha jac1] ++ evs) ++ [EvAttempt (l_H l1) err ok y yn ye]) /\
+                 lastb b0 (tr ++ (ev0 ++ [EvFactor (l_H l1) alpha jac1] ++ evs) ++ [EvAttempt (l_H l1) err ok y yn ye]) = phi (l_H l1)).
+      { intros ok y yn ye.
+        pose proof (attempt_events_ok ts b0 tr ev0 (l_H l1) alpha jac1 evs err ok y yn ye [] HS1 HH1 HB1 SP (Forall_nil _)) as X.
+        rewrite app_nil_r in X. exact X. }
+      destruct (isnan err); [apply NoTail|].
+      destruct (isinf err); [apply NoTail|].
+      destruct (ltb err (n1 N) || ltb (l_H l1) (p_h_min p)) eqn:Eacc.
+      - split; [exact HTB|]. split; [apply NoTail|]. cbn [l_fresh]. discriminate.
+      - apply Bool.orb_false_iff in Eacc. destruct Eacc as [Eerr _].
+        split; [exact HTB|].
+        assert (Htail : Forall plain (if in_place then [EvNegJac (sY s2)] else ([] : list event))).
+        { destruct in_place; repeat constructor. }
+        match goal with |- context [EvAttempt (l_H l1) err false ?y ?yn ?ye] =>
+          pose proof (attempt_events_ok ts b0 tr ev0 (l_H l1) alpha jac1 evs err false y yn ye _ HS1 HH1 HB1 SP Htail) as [X1 X2] end.
+        cbn [sY] in *.
+        split; [exact X1|]. intros _. cbn [l_H].
+        match goal with |- _ <= ?r => replace r with (phi (l_H l1)) by (symmetry; exact X2) end.
+        apply (rejected_not_larger (l_H l1) err (l_reject_more l1) HH1 Eerr).
+    Qed.
+
+    Theorem ros_attempt_sizes_within_the_interval fuel time_step (s : rstate) :
+      phi (n0 N) == 0 -> 0 <= phi time_step ->
+      sizes_ok time_step 0 (r_trace (solve fuel time_step s)).
+    Proof.
+      intros H0 Hts. unfold ros_solve. cbv zeta. cbn [r_trace].
+      assert (G : forall hm fuel0 l tr, szinv time_step 0 l tr -> sizes_ok time_step 0 (r_trace (loop fuel0 time_step hm l tr))).
+      { intros hm. induction fuel0 as [|f IH]; intros l tr HI; cbn [ros_loop].
+        - cbn [r_trace]. exact (proj1 (proj2 HI)).
+        - pose proof (iter_sizes time_step hm 0 l tr HI) as Hs.
+          destruct (iter time_step hm l) as [[[[[st t] sts] s1] ev]|[l1 ev]].
+          + cbn [r_trace]. exact Hs.
+          + apply IH. exact Hs. }
+      apply G. unfold szinv, tinv. cbn [l_t l_fresh sizes_ok]. 
+      split; [split; [rewrite H0; split; lra | discriminate] | split; [exact I | discriminate]].
+    Qed.
+
+    (* the two readings of sizes_ok used by Properties_C07 *)
+    Lemma sizes_ok_step ts b a t H r : sizes_ok ts b (a ++ EvStep t H :: r) ->
+      0 <= phi t /\ 0 <= phi H /\ phi H <= phi ts - phi t.
+    Proof. intros X. apply sizes_ok_app in X. destruct X as [_ X]. cbn [sizes_ok] in X. tauto. Qed.
+
+    Definition size_of (e : event) : option T :=
+      match e with EvStep _ H => Some H | EvAttempt H _ _ _ _ _ => Some H | _ => None end.
+
+    Lemma sizes_ok_next_attempt ts b a e1 H mid H' e' ok' (y yn ye : V) r :
+      sizes_ok ts b (a ++ e1 :: mid ++ EvAttempt H' e' ok' y yn ye :: r) ->
+      size_of e1 = Some H -> Forall plain mid ->
+      0 <= phi H' /\ phi H' <= phi H.
+    Proof.
+      intros X E Hp. apply sizes_ok_app in X. destruct X as [_ X].
+      assert (Y : sizes_ok ts (phi H) (mid ++ EvAttempt H' e' ok' y yn ye :: r)).
+      { destruct e1; cbn [size_of] in E; try discriminate E; inversion E; subst; cbn [sizes_ok] in X; tauto. }
+      apply sizes_ok_app in Y. destruct Y as [_ Y]. destruct (plain_sizes ts (phi H) mid Hp) as [_ L]. rewrite L in Y.
+      cbn [sizes_ok] in Y. tauto.
+    Qed.
+
+    Theorem ros_step_start_within_the_remaining_interval fuel time_step (s : rstate) a t H r :
+      phi (n0 N) == 0 -> 0 <= phi time_step ->
+      r_trace (solve fuel time_step s) = a ++ EvStep t H :: r ->
+      0 <= phi t /\ 0 <= phi H /\ phi H <= phi time_step - phi t.
+    Proof.
+      intros H0 Hts E. pose proof (ros_attempt_sizes_within_the_interval fuel time_step s H0 Hts) as X.
+      rewrite E in X. exact (sizes_ok_step _ _ _ _ _ _ X).
+    Qed.
+
+    Theorem ros_attempt_never_larger_than_the_one_before fuel time_step (s : rstate) a e1 H mid H' e' ok' y yn ye r :
+      phi (n0 N) == 0 -> 0 <= phi time_step ->
+      r_trace (solve fuel time_step s) = a ++ e1 :: mid ++ EvAttempt H' e' ok' y yn ye :: r ->
+      size_of e1 = Some H -> Forall plain mid ->
+      0 <= phi H' /\ phi H' <= phi H.
+    Proof.
+      intros H0 Hts E. pose proof (ros_attempt_sizes_within_the_interval fuel time_step s H0 Hts) as X.
+      rewrite E in X. exact (sizes_ok_next_attempt _ _ _ _ _ _ _ _ _ _ _ _ _ X).
+    Qed.
   End TimeBounds.
 End RosScratch.
